@@ -1,7 +1,10 @@
 use tevec::prelude::*;
 fn main() {
-    for s in ["ab", "99999999999999999999d", "9223372036854775807w", "+-5d", "1d h", "3000000000mo", "9223372036854775807s", "1h30m", "-2y1mo", "", "12", "é1d", "1é"] {
-        let r = std::panic::catch_unwind(|| TimeDelta::parse(s));
-        match r { Ok(v) => println!("{:?} -> {:?}", s, v.map(|t| (t.months, t.inner.num_nanoseconds()))), Err(_) => println!("{:?} -> PANIC", s) }
-    }
+    let v: Vec<i64> = Vec1Create::range(Some(0), 5, Some(2)); println!("range(0,5,2) = {:?}", v);
+    let v: Vec<i64> = Vec1Create::range(Some(5), 0, Some(-2)); println!("range(5,0,-2) = {:?}", v);
+    let v: Vec<i64> = Vec1Create::range(Some(0), 6, Some(2)); println!("range(0,6,2) = {:?}", v);
+    let v: Vec<f64> = Vec1Create::range(Some(0.), 1., Some(0.25)); println!("range(0,1,.25) = {:?}", v);
+    let v: Vec<f64> = Vec1Create::range(Some(0.), 1., Some(0.3)); println!("range(0,1,.3) = {:?}", v);
+    let v: Vec<i64> = Vec1Create::range(Some(5), 0, Some(1)); println!("range(5,0,1) = {:?}", v);
+    let v: Vec<usize> = Vec1Create::range(Some(5), 0, Some(1)); println!("usize range(5,0,1) = {:?}", v);
 }
